@@ -19,12 +19,12 @@
  *
  * Block size.  CBMC lowers every typed access (`dirent->rec_len`, `next->inode`, ...) at a SYMBOLIC offset into a byte
  * array to an expression over ALL elements of the array, and the resulting SAT problems grow about 5x per doubling of
- * the block (64 B: 15 s, 128 B: 70 s, 256 B: 50..130 s per pre-state case with kissat, 1 KiB: hours; SMT back ends
- * (z3, cvc5) do not finish either).  link_proc depends on the block size only through comparisons with its `blocksize`
- * argument / fs->blocksize, so the units use SMALL SYMBOLIC BLOCKS (64, 128 B all-in-one; 256, 512 B split into the
- * four exhaustive pre-state cases "E unused/live x follower absorbable/not") with a symbolic offset, arbitrary
- * content and all safety checks on.  This is stated in every unit's `assumes`: it is evidence parametric in the block
- * size, not a proof for 1024/4096-byte blocks.  (Also noted: static objects are NOT zero under DFCC — nondet-static —
+ * the block (minisat: 64 B 15 s, 128 B 70 s, 256 B > 250 s; kissat per pre-state case: 256 B 50..130 s, 1 KiB 320..800 s,
+ * 4 KiB 33 min .. > 60 min; SMT back ends (z3, cvc5) do not finish either).  link_proc depends on the block size only through comparisons with its `blocksize`
+ * argument / fs->blocksize, so the quick units use SMALL SYMBOLIC BLOCKS (64, 128 B, all pre-states in one run) and the thorough units 256 B
+ * and 1 KiB — the smallest legal ext2 block — split into the four exhaustive pre-state cases "E unused/live x
+ * follower absorbable/not"; always a symbolic offset, arbitrary content and all safety checks on.  The block size is
+ * stated in every unit's `assumes`; 4 KiB is not covered.  (Also noted: static objects are NOT zero under DFCC — nondet-static —
  * so the harness assigns every superblock field the code reads.)
  */
 /* VERIF-UNIT
@@ -42,7 +42,7 @@
  "unwind_reason": "link_proc is loop-free; only harness/stub loops are unwound: over the 255 possible name bytes (name_len is an 8-bit on-disk field); unwinding assertions on",
  "timeout": 300,
  "functions": ["lib/ext2fs/link.c:link_proc", "lib/ext2fs/dir_iterate.c:ext2fs_get_rec_len", "lib/ext2fs/dir_iterate.c:ext2fs_set_rec_len"],
- "assumes": ["SYMBOLIC BLOCK OF 64 BYTES (blocksize argument and fs->blocksize are 64): smaller than any legal ext2 block size, i.e. evidence parametric in the block size (see link_proc_1k_c* for a real block size); link_proc and the rec_len helpers depend on the block size only through comparisons with it (and the < 65536 branch); units exist for 64 and 128 B (all pre-states in one run), 256 B and 1 KiB (the smallest legal ext2 block; four exhaustive pre-state cases, kissat); 4 KiB is beyond the time budget (every typed access at a symbolic offset costs O(block size))", "requested names are therefore limited to what fits (name_len <= 56); IN.namelen itself ranges over 1..255", "the entry handed to the callback satisfies what ext2fs_process_dir_block checks before calling: 4-aligned offset < blocksize-8, rec_len >= 8, multiple of 4, offset+rec_len <= blocksize, name_len+8 <= rec_len, and it is not the checksum tail (the caller does not pass DIRENT_FLAG_INCLUDE_CSUM)", "ls->namelen == strlen(ls->name) <= 255, ls->err == 0, ls->sb == fs->super, callback blocksize == fs->blocksize (block directories; inline-data directories are not covered)", "libc strncpy is an over-approximating stub in the unit: the whole block becomes arbitrary except that, at every byte position the code or the specification later reads (headers of E, of the entry behind E, of the tail slot, the frame byte k, name byte j of both entries), bytes outside dst[0..n) are unchanged and dst[j] has the ISO C value; destination range asserted to be inside the block", "without the filetype feature the type byte of the new entry is only claimed to be 0 when the reused slot's stale type byte was 0 (always the case on a filesystem that never had the feature)", "superblock feature words other than metadata_csum / filetype bits arbitrary"],
+ "assumes": ["SYMBOLIC BLOCK OF 64 BYTES (blocksize argument and fs->blocksize are 64): smaller than any legal ext2 block size, i.e. evidence parametric in the block size (see link_proc_1k_c* for a real block size); link_proc and the rec_len helpers depend on the block size only through comparisons with it (and the < 65536 branch); units exist for 64 and 128 B (all pre-states in one run), 256 B and 1 KiB (the smallest legal ext2 block; four exhaustive pre-state cases, kissat); 4 KiB is beyond the time budget (case c0 is green after 33 min, case c2 does not finish in 60 min: every typed access at a symbolic offset costs O(block size))", "requested names are therefore limited to what fits (name_len <= 56); IN.namelen itself ranges over 1..255", "the entry handed to the callback satisfies what ext2fs_process_dir_block checks before calling: 4-aligned offset < blocksize-8, rec_len >= 8, multiple of 4, offset+rec_len <= blocksize, name_len+8 <= rec_len, and it is not the checksum tail (the caller does not pass DIRENT_FLAG_INCLUDE_CSUM)", "ls->namelen == strlen(ls->name) <= 255, ls->err == 0, ls->sb == fs->super, callback blocksize == fs->blocksize (block directories; inline-data directories are not covered)", "libc strncpy is an over-approximating stub in the unit: the whole block becomes arbitrary except that, at every byte position the code or the specification later reads (headers of E, of the entry behind E, of the tail slot, the frame byte k, name byte j of both entries), bytes outside dst[0..n) are unchanged and dst[j] has the ISO C value; destination range asserted to be inside the block", "without the filetype feature the type byte of the new entry is only claimed to be 0 when the reused slot's stale type byte was 0 (always the case on a filesystem that never had the feature)", "superblock feature words other than metadata_csum / filetype bits arbitrary"],
  "native": false
 }
 */
@@ -62,7 +62,7 @@
  "unwind_reason": "link_proc is loop-free; only harness/stub loops are unwound: over the 255 possible name bytes (name_len is an 8-bit on-disk field); unwinding assertions on",
  "timeout": 400,
  "functions": ["lib/ext2fs/link.c:link_proc", "lib/ext2fs/dir_iterate.c:ext2fs_get_rec_len", "lib/ext2fs/dir_iterate.c:ext2fs_set_rec_len"],
- "assumes": ["SYMBOLIC BLOCK OF 128 BYTES (blocksize argument and fs->blocksize are 128): smaller than any legal ext2 block size, i.e. evidence parametric in the block size (see link_proc_1k_c* for a real block size); link_proc and the rec_len helpers depend on the block size only through comparisons with it (and the < 65536 branch); units exist for 64 and 128 B (all pre-states in one run), 256 B and 1 KiB (the smallest legal ext2 block; four exhaustive pre-state cases, kissat); 4 KiB is beyond the time budget (every typed access at a symbolic offset costs O(block size))", "requested names are therefore limited to what fits (name_len <= 120); IN.namelen itself ranges over 1..255", "the entry handed to the callback satisfies what ext2fs_process_dir_block checks before calling: 4-aligned offset < blocksize-8, rec_len >= 8, multiple of 4, offset+rec_len <= blocksize, name_len+8 <= rec_len, and it is not the checksum tail (the caller does not pass DIRENT_FLAG_INCLUDE_CSUM)", "ls->namelen == strlen(ls->name) <= 255, ls->err == 0, ls->sb == fs->super, callback blocksize == fs->blocksize (block directories; inline-data directories are not covered)", "libc strncpy is an over-approximating stub in the unit: the whole block becomes arbitrary except that, at every byte position the code or the specification later reads (headers of E, of the entry behind E, of the tail slot, the frame byte k, name byte j of both entries), bytes outside dst[0..n) are unchanged and dst[j] has the ISO C value; destination range asserted to be inside the block", "without the filetype feature the type byte of the new entry is only claimed to be 0 when the reused slot's stale type byte was 0 (always the case on a filesystem that never had the feature)", "superblock feature words other than metadata_csum / filetype bits arbitrary"],
+ "assumes": ["SYMBOLIC BLOCK OF 128 BYTES (blocksize argument and fs->blocksize are 128): smaller than any legal ext2 block size, i.e. evidence parametric in the block size (see link_proc_1k_c* for a real block size); link_proc and the rec_len helpers depend on the block size only through comparisons with it (and the < 65536 branch); units exist for 64 and 128 B (all pre-states in one run), 256 B and 1 KiB (the smallest legal ext2 block; four exhaustive pre-state cases, kissat); 4 KiB is beyond the time budget (case c0 is green after 33 min, case c2 does not finish in 60 min: every typed access at a symbolic offset costs O(block size))", "requested names are therefore limited to what fits (name_len <= 120); IN.namelen itself ranges over 1..255", "the entry handed to the callback satisfies what ext2fs_process_dir_block checks before calling: 4-aligned offset < blocksize-8, rec_len >= 8, multiple of 4, offset+rec_len <= blocksize, name_len+8 <= rec_len, and it is not the checksum tail (the caller does not pass DIRENT_FLAG_INCLUDE_CSUM)", "ls->namelen == strlen(ls->name) <= 255, ls->err == 0, ls->sb == fs->super, callback blocksize == fs->blocksize (block directories; inline-data directories are not covered)", "libc strncpy is an over-approximating stub in the unit: the whole block becomes arbitrary except that, at every byte position the code or the specification later reads (headers of E, of the entry behind E, of the tail slot, the frame byte k, name byte j of both entries), bytes outside dst[0..n) are unchanged and dst[j] has the ISO C value; destination range asserted to be inside the block", "without the filetype feature the type byte of the new entry is only claimed to be 0 when the reused slot's stale type byte was 0 (always the case on a filesystem that never had the feature)", "superblock feature words other than metadata_csum / filetype bits arbitrary"],
  "native": false
 }
 */
@@ -81,7 +81,7 @@
  "unwind_reason": "link_proc is loop-free; only harness/stub loops are unwound: over the 255 possible name bytes (name_len is an 8-bit on-disk field); unwinding assertions on",
  "timeout": 900,
  "functions": ["lib/ext2fs/link.c:link_proc", "lib/ext2fs/dir_iterate.c:ext2fs_get_rec_len", "lib/ext2fs/dir_iterate.c:ext2fs_set_rec_len"],
- "assumes": ["SYMBOLIC BLOCK OF 256 BYTES (blocksize argument and fs->blocksize are 256): smaller than any legal ext2 block size, i.e. evidence parametric in the block size (see link_proc_1k_c* for a real block size); link_proc and the rec_len helpers depend on the block size only through comparisons with it (and the < 65536 branch); units exist for 64 and 128 B (all pre-states in one run), 256 B and 1 KiB (the smallest legal ext2 block; four exhaustive pre-state cases, kissat); 4 KiB is beyond the time budget (every typed access at a symbolic offset costs O(block size)); pre-state case: E unused, follower not absorbable", "requested names are therefore limited to what fits (name_len <= 248); IN.namelen itself ranges over 1..255", "the entry handed to the callback satisfies what ext2fs_process_dir_block checks before calling: 4-aligned offset < blocksize-8, rec_len >= 8, multiple of 4, offset+rec_len <= blocksize, name_len+8 <= rec_len, and it is not the checksum tail (the caller does not pass DIRENT_FLAG_INCLUDE_CSUM)", "ls->namelen == strlen(ls->name) <= 255, ls->err == 0, ls->sb == fs->super, callback blocksize == fs->blocksize (block directories; inline-data directories are not covered)", "libc strncpy is an over-approximating stub in the unit: the whole block becomes arbitrary except that, at every byte position the code or the specification later reads (headers of E, of the entry behind E, of the tail slot, the frame byte k, name byte j of both entries), bytes outside dst[0..n) are unchanged and dst[j] has the ISO C value; destination range asserted to be inside the block", "without the filetype feature the type byte of the new entry is only claimed to be 0 when the reused slot's stale type byte was 0 (always the case on a filesystem that never had the feature)", "superblock feature words other than metadata_csum / filetype bits arbitrary"],
+ "assumes": ["SYMBOLIC BLOCK OF 256 BYTES (blocksize argument and fs->blocksize are 256): smaller than any legal ext2 block size, i.e. evidence parametric in the block size (see link_proc_1k_c* for a real block size); link_proc and the rec_len helpers depend on the block size only through comparisons with it (and the < 65536 branch); units exist for 64 and 128 B (all pre-states in one run), 256 B and 1 KiB (the smallest legal ext2 block; four exhaustive pre-state cases, kissat); 4 KiB is beyond the time budget (case c0 is green after 33 min, case c2 does not finish in 60 min: every typed access at a symbolic offset costs O(block size)); pre-state case: E unused, follower not absorbable", "requested names are therefore limited to what fits (name_len <= 248); IN.namelen itself ranges over 1..255", "the entry handed to the callback satisfies what ext2fs_process_dir_block checks before calling: 4-aligned offset < blocksize-8, rec_len >= 8, multiple of 4, offset+rec_len <= blocksize, name_len+8 <= rec_len, and it is not the checksum tail (the caller does not pass DIRENT_FLAG_INCLUDE_CSUM)", "ls->namelen == strlen(ls->name) <= 255, ls->err == 0, ls->sb == fs->super, callback blocksize == fs->blocksize (block directories; inline-data directories are not covered)", "libc strncpy is an over-approximating stub in the unit: the whole block becomes arbitrary except that, at every byte position the code or the specification later reads (headers of E, of the entry behind E, of the tail slot, the frame byte k, name byte j of both entries), bytes outside dst[0..n) are unchanged and dst[j] has the ISO C value; destination range asserted to be inside the block", "without the filetype feature the type byte of the new entry is only claimed to be 0 when the reused slot's stale type byte was 0 (always the case on a filesystem that never had the feature)", "superblock feature words other than metadata_csum / filetype bits arbitrary"],
  "backend": "kissat",
  "native": false
 }
@@ -101,7 +101,7 @@
  "unwind_reason": "link_proc is loop-free; only harness/stub loops are unwound: over the 255 possible name bytes (name_len is an 8-bit on-disk field); unwinding assertions on",
  "timeout": 900,
  "functions": ["lib/ext2fs/link.c:link_proc", "lib/ext2fs/dir_iterate.c:ext2fs_get_rec_len", "lib/ext2fs/dir_iterate.c:ext2fs_set_rec_len"],
- "assumes": ["SYMBOLIC BLOCK OF 256 BYTES (blocksize argument and fs->blocksize are 256): smaller than any legal ext2 block size, i.e. evidence parametric in the block size (see link_proc_1k_c* for a real block size); link_proc and the rec_len helpers depend on the block size only through comparisons with it (and the < 65536 branch); units exist for 64 and 128 B (all pre-states in one run), 256 B and 1 KiB (the smallest legal ext2 block; four exhaustive pre-state cases, kissat); 4 KiB is beyond the time budget (every typed access at a symbolic offset costs O(block size)); pre-state case: E unused, follower absorbable", "requested names are therefore limited to what fits (name_len <= 248); IN.namelen itself ranges over 1..255", "the entry handed to the callback satisfies what ext2fs_process_dir_block checks before calling: 4-aligned offset < blocksize-8, rec_len >= 8, multiple of 4, offset+rec_len <= blocksize, name_len+8 <= rec_len, and it is not the checksum tail (the caller does not pass DIRENT_FLAG_INCLUDE_CSUM)", "ls->namelen == strlen(ls->name) <= 255, ls->err == 0, ls->sb == fs->super, callback blocksize == fs->blocksize (block directories; inline-data directories are not covered)", "libc strncpy is an over-approximating stub in the unit: the whole block becomes arbitrary except that, at every byte position the code or the specification later reads (headers of E, of the entry behind E, of the tail slot, the frame byte k, name byte j of both entries), bytes outside dst[0..n) are unchanged and dst[j] has the ISO C value; destination range asserted to be inside the block", "without the filetype feature the type byte of the new entry is only claimed to be 0 when the reused slot's stale type byte was 0 (always the case on a filesystem that never had the feature)", "superblock feature words other than metadata_csum / filetype bits arbitrary"],
+ "assumes": ["SYMBOLIC BLOCK OF 256 BYTES (blocksize argument and fs->blocksize are 256): smaller than any legal ext2 block size, i.e. evidence parametric in the block size (see link_proc_1k_c* for a real block size); link_proc and the rec_len helpers depend on the block size only through comparisons with it (and the < 65536 branch); units exist for 64 and 128 B (all pre-states in one run), 256 B and 1 KiB (the smallest legal ext2 block; four exhaustive pre-state cases, kissat); 4 KiB is beyond the time budget (case c0 is green after 33 min, case c2 does not finish in 60 min: every typed access at a symbolic offset costs O(block size)); pre-state case: E unused, follower absorbable", "requested names are therefore limited to what fits (name_len <= 248); IN.namelen itself ranges over 1..255", "the entry handed to the callback satisfies what ext2fs_process_dir_block checks before calling: 4-aligned offset < blocksize-8, rec_len >= 8, multiple of 4, offset+rec_len <= blocksize, name_len+8 <= rec_len, and it is not the checksum tail (the caller does not pass DIRENT_FLAG_INCLUDE_CSUM)", "ls->namelen == strlen(ls->name) <= 255, ls->err == 0, ls->sb == fs->super, callback blocksize == fs->blocksize (block directories; inline-data directories are not covered)", "libc strncpy is an over-approximating stub in the unit: the whole block becomes arbitrary except that, at every byte position the code or the specification later reads (headers of E, of the entry behind E, of the tail slot, the frame byte k, name byte j of both entries), bytes outside dst[0..n) are unchanged and dst[j] has the ISO C value; destination range asserted to be inside the block", "without the filetype feature the type byte of the new entry is only claimed to be 0 when the reused slot's stale type byte was 0 (always the case on a filesystem that never had the feature)", "superblock feature words other than metadata_csum / filetype bits arbitrary"],
  "backend": "kissat",
  "native": false
 }
@@ -121,7 +121,7 @@
  "unwind_reason": "link_proc is loop-free; only harness/stub loops are unwound: over the 255 possible name bytes (name_len is an 8-bit on-disk field); unwinding assertions on",
  "timeout": 900,
  "functions": ["lib/ext2fs/link.c:link_proc", "lib/ext2fs/dir_iterate.c:ext2fs_get_rec_len", "lib/ext2fs/dir_iterate.c:ext2fs_set_rec_len"],
- "assumes": ["SYMBOLIC BLOCK OF 256 BYTES (blocksize argument and fs->blocksize are 256): smaller than any legal ext2 block size, i.e. evidence parametric in the block size (see link_proc_1k_c* for a real block size); link_proc and the rec_len helpers depend on the block size only through comparisons with it (and the < 65536 branch); units exist for 64 and 128 B (all pre-states in one run), 256 B and 1 KiB (the smallest legal ext2 block; four exhaustive pre-state cases, kissat); 4 KiB is beyond the time budget (every typed access at a symbolic offset costs O(block size)); pre-state case: E live, follower not absorbable", "requested names are therefore limited to what fits (name_len <= 248); IN.namelen itself ranges over 1..255", "the entry handed to the callback satisfies what ext2fs_process_dir_block checks before calling: 4-aligned offset < blocksize-8, rec_len >= 8, multiple of 4, offset+rec_len <= blocksize, name_len+8 <= rec_len, and it is not the checksum tail (the caller does not pass DIRENT_FLAG_INCLUDE_CSUM)", "ls->namelen == strlen(ls->name) <= 255, ls->err == 0, ls->sb == fs->super, callback blocksize == fs->blocksize (block directories; inline-data directories are not covered)", "libc strncpy is an over-approximating stub in the unit: the whole block becomes arbitrary except that, at every byte position the code or the specification later reads (headers of E, of the entry behind E, of the tail slot, the frame byte k, name byte j of both entries), bytes outside dst[0..n) are unchanged and dst[j] has the ISO C value; destination range asserted to be inside the block", "without the filetype feature the type byte of the new entry is only claimed to be 0 when the reused slot's stale type byte was 0 (always the case on a filesystem that never had the feature)", "superblock feature words other than metadata_csum / filetype bits arbitrary"],
+ "assumes": ["SYMBOLIC BLOCK OF 256 BYTES (blocksize argument and fs->blocksize are 256): smaller than any legal ext2 block size, i.e. evidence parametric in the block size (see link_proc_1k_c* for a real block size); link_proc and the rec_len helpers depend on the block size only through comparisons with it (and the < 65536 branch); units exist for 64 and 128 B (all pre-states in one run), 256 B and 1 KiB (the smallest legal ext2 block; four exhaustive pre-state cases, kissat); 4 KiB is beyond the time budget (case c0 is green after 33 min, case c2 does not finish in 60 min: every typed access at a symbolic offset costs O(block size)); pre-state case: E live, follower not absorbable", "requested names are therefore limited to what fits (name_len <= 248); IN.namelen itself ranges over 1..255", "the entry handed to the callback satisfies what ext2fs_process_dir_block checks before calling: 4-aligned offset < blocksize-8, rec_len >= 8, multiple of 4, offset+rec_len <= blocksize, name_len+8 <= rec_len, and it is not the checksum tail (the caller does not pass DIRENT_FLAG_INCLUDE_CSUM)", "ls->namelen == strlen(ls->name) <= 255, ls->err == 0, ls->sb == fs->super, callback blocksize == fs->blocksize (block directories; inline-data directories are not covered)", "libc strncpy is an over-approximating stub in the unit: the whole block becomes arbitrary except that, at every byte position the code or the specification later reads (headers of E, of the entry behind E, of the tail slot, the frame byte k, name byte j of both entries), bytes outside dst[0..n) are unchanged and dst[j] has the ISO C value; destination range asserted to be inside the block", "without the filetype feature the type byte of the new entry is only claimed to be 0 when the reused slot's stale type byte was 0 (always the case on a filesystem that never had the feature)", "superblock feature words other than metadata_csum / filetype bits arbitrary"],
  "backend": "kissat",
  "native": false
 }
@@ -141,7 +141,7 @@
  "unwind_reason": "link_proc is loop-free; only harness/stub loops are unwound: over the 255 possible name bytes (name_len is an 8-bit on-disk field); unwinding assertions on",
  "timeout": 900,
  "functions": ["lib/ext2fs/link.c:link_proc", "lib/ext2fs/dir_iterate.c:ext2fs_get_rec_len", "lib/ext2fs/dir_iterate.c:ext2fs_set_rec_len"],
- "assumes": ["SYMBOLIC BLOCK OF 256 BYTES (blocksize argument and fs->blocksize are 256): smaller than any legal ext2 block size, i.e. evidence parametric in the block size (see link_proc_1k_c* for a real block size); link_proc and the rec_len helpers depend on the block size only through comparisons with it (and the < 65536 branch); units exist for 64 and 128 B (all pre-states in one run), 256 B and 1 KiB (the smallest legal ext2 block; four exhaustive pre-state cases, kissat); 4 KiB is beyond the time budget (every typed access at a symbolic offset costs O(block size)); pre-state case: E live, follower absorbable", "requested names are therefore limited to what fits (name_len <= 248); IN.namelen itself ranges over 1..255", "the entry handed to the callback satisfies what ext2fs_process_dir_block checks before calling: 4-aligned offset < blocksize-8, rec_len >= 8, multiple of 4, offset+rec_len <= blocksize, name_len+8 <= rec_len, and it is not the checksum tail (the caller does not pass DIRENT_FLAG_INCLUDE_CSUM)", "ls->namelen == strlen(ls->name) <= 255, ls->err == 0, ls->sb == fs->super, callback blocksize == fs->blocksize (block directories; inline-data directories are not covered)", "libc strncpy is an over-approximating stub in the unit: the whole block becomes arbitrary except that, at every byte position the code or the specification later reads (headers of E, of the entry behind E, of the tail slot, the frame byte k, name byte j of both entries), bytes outside dst[0..n) are unchanged and dst[j] has the ISO C value; destination range asserted to be inside the block", "without the filetype feature the type byte of the new entry is only claimed to be 0 when the reused slot's stale type byte was 0 (always the case on a filesystem that never had the feature)", "superblock feature words other than metadata_csum / filetype bits arbitrary"],
+ "assumes": ["SYMBOLIC BLOCK OF 256 BYTES (blocksize argument and fs->blocksize are 256): smaller than any legal ext2 block size, i.e. evidence parametric in the block size (see link_proc_1k_c* for a real block size); link_proc and the rec_len helpers depend on the block size only through comparisons with it (and the < 65536 branch); units exist for 64 and 128 B (all pre-states in one run), 256 B and 1 KiB (the smallest legal ext2 block; four exhaustive pre-state cases, kissat); 4 KiB is beyond the time budget (case c0 is green after 33 min, case c2 does not finish in 60 min: every typed access at a symbolic offset costs O(block size)); pre-state case: E live, follower absorbable", "requested names are therefore limited to what fits (name_len <= 248); IN.namelen itself ranges over 1..255", "the entry handed to the callback satisfies what ext2fs_process_dir_block checks before calling: 4-aligned offset < blocksize-8, rec_len >= 8, multiple of 4, offset+rec_len <= blocksize, name_len+8 <= rec_len, and it is not the checksum tail (the caller does not pass DIRENT_FLAG_INCLUDE_CSUM)", "ls->namelen == strlen(ls->name) <= 255, ls->err == 0, ls->sb == fs->super, callback blocksize == fs->blocksize (block directories; inline-data directories are not covered)", "libc strncpy is an over-approximating stub in the unit: the whole block becomes arbitrary except that, at every byte position the code or the specification later reads (headers of E, of the entry behind E, of the tail slot, the frame byte k, name byte j of both entries), bytes outside dst[0..n) are unchanged and dst[j] has the ISO C value; destination range asserted to be inside the block", "without the filetype feature the type byte of the new entry is only claimed to be 0 when the reused slot's stale type byte was 0 (always the case on a filesystem that never had the feature)", "superblock feature words other than metadata_csum / filetype bits arbitrary"],
  "backend": "kissat",
  "native": false
 }
@@ -161,7 +161,7 @@
  "unwind_reason": "link_proc is loop-free; only harness/stub loops are unwound: over the 255 possible name bytes (name_len is an 8-bit on-disk field); unwinding assertions on",
  "timeout": 1800,
  "functions": ["lib/ext2fs/link.c:link_proc", "lib/ext2fs/dir_iterate.c:ext2fs_get_rec_len", "lib/ext2fs/dir_iterate.c:ext2fs_set_rec_len"],
- "assumes": ["SYMBOLIC BLOCK OF 1024 BYTES (blocksize argument and fs->blocksize are 1024): link_proc and the rec_len helpers depend on the block size only through comparisons with it (and the < 65536 branch); units exist for 64 and 128 B (all pre-states in one run), 256 B and 1 KiB (the smallest legal ext2 block; four exhaustive pre-state cases, kissat); 4 KiB is beyond the time budget (every typed access at a symbolic offset costs O(block size)); pre-state case: E unused, follower not absorbable", "requested names are therefore limited to what fits (name_len <= 255); IN.namelen itself ranges over 1..255", "the entry handed to the callback satisfies what ext2fs_process_dir_block checks before calling: 4-aligned offset < blocksize-8, rec_len >= 8, multiple of 4, offset+rec_len <= blocksize, name_len+8 <= rec_len, and it is not the checksum tail (the caller does not pass DIRENT_FLAG_INCLUDE_CSUM)", "ls->namelen == strlen(ls->name) <= 255, ls->err == 0, ls->sb == fs->super, callback blocksize == fs->blocksize (block directories; inline-data directories are not covered)", "libc strncpy is an over-approximating stub in the unit: the whole block becomes arbitrary except that, at every byte position the code or the specification later reads (headers of E, of the entry behind E, of the tail slot, the frame byte k, name byte j of both entries), bytes outside dst[0..n) are unchanged and dst[j] has the ISO C value; destination range asserted to be inside the block", "without the filetype feature the type byte of the new entry is only claimed to be 0 when the reused slot's stale type byte was 0 (always the case on a filesystem that never had the feature)", "superblock feature words other than metadata_csum / filetype bits arbitrary"],
+ "assumes": ["SYMBOLIC BLOCK OF 1024 BYTES (blocksize argument and fs->blocksize are 1024): link_proc and the rec_len helpers depend on the block size only through comparisons with it (and the < 65536 branch); units exist for 64 and 128 B (all pre-states in one run), 256 B and 1 KiB (the smallest legal ext2 block; four exhaustive pre-state cases, kissat); 4 KiB is beyond the time budget (case c0 is green after 33 min, case c2 does not finish in 60 min: every typed access at a symbolic offset costs O(block size)); pre-state case: E unused, follower not absorbable", "requested names are therefore limited to what fits (name_len <= 255); IN.namelen itself ranges over 1..255", "the entry handed to the callback satisfies what ext2fs_process_dir_block checks before calling: 4-aligned offset < blocksize-8, rec_len >= 8, multiple of 4, offset+rec_len <= blocksize, name_len+8 <= rec_len, and it is not the checksum tail (the caller does not pass DIRENT_FLAG_INCLUDE_CSUM)", "ls->namelen == strlen(ls->name) <= 255, ls->err == 0, ls->sb == fs->super, callback blocksize == fs->blocksize (block directories; inline-data directories are not covered)", "libc strncpy is an over-approximating stub in the unit: the whole block becomes arbitrary except that, at every byte position the code or the specification later reads (headers of E, of the entry behind E, of the tail slot, the frame byte k, name byte j of both entries), bytes outside dst[0..n) are unchanged and dst[j] has the ISO C value; destination range asserted to be inside the block", "without the filetype feature the type byte of the new entry is only claimed to be 0 when the reused slot's stale type byte was 0 (always the case on a filesystem that never had the feature)", "superblock feature words other than metadata_csum / filetype bits arbitrary"],
  "backend": "kissat",
  "native": false
 }
@@ -181,7 +181,7 @@
  "unwind_reason": "link_proc is loop-free; only harness/stub loops are unwound: over the 255 possible name bytes (name_len is an 8-bit on-disk field); unwinding assertions on",
  "timeout": 1800,
  "functions": ["lib/ext2fs/link.c:link_proc", "lib/ext2fs/dir_iterate.c:ext2fs_get_rec_len", "lib/ext2fs/dir_iterate.c:ext2fs_set_rec_len"],
- "assumes": ["SYMBOLIC BLOCK OF 1024 BYTES (blocksize argument and fs->blocksize are 1024): link_proc and the rec_len helpers depend on the block size only through comparisons with it (and the < 65536 branch); units exist for 64 and 128 B (all pre-states in one run), 256 B and 1 KiB (the smallest legal ext2 block; four exhaustive pre-state cases, kissat); 4 KiB is beyond the time budget (every typed access at a symbolic offset costs O(block size)); pre-state case: E unused, follower absorbable", "requested names are therefore limited to what fits (name_len <= 255); IN.namelen itself ranges over 1..255", "the entry handed to the callback satisfies what ext2fs_process_dir_block checks before calling: 4-aligned offset < blocksize-8, rec_len >= 8, multiple of 4, offset+rec_len <= blocksize, name_len+8 <= rec_len, and it is not the checksum tail (the caller does not pass DIRENT_FLAG_INCLUDE_CSUM)", "ls->namelen == strlen(ls->name) <= 255, ls->err == 0, ls->sb == fs->super, callback blocksize == fs->blocksize (block directories; inline-data directories are not covered)", "libc strncpy is an over-approximating stub in the unit: the whole block becomes arbitrary except that, at every byte position the code or the specification later reads (headers of E, of the entry behind E, of the tail slot, the frame byte k, name byte j of both entries), bytes outside dst[0..n) are unchanged and dst[j] has the ISO C value; destination range asserted to be inside the block", "without the filetype feature the type byte of the new entry is only claimed to be 0 when the reused slot's stale type byte was 0 (always the case on a filesystem that never had the feature)", "superblock feature words other than metadata_csum / filetype bits arbitrary"],
+ "assumes": ["SYMBOLIC BLOCK OF 1024 BYTES (blocksize argument and fs->blocksize are 1024): link_proc and the rec_len helpers depend on the block size only through comparisons with it (and the < 65536 branch); units exist for 64 and 128 B (all pre-states in one run), 256 B and 1 KiB (the smallest legal ext2 block; four exhaustive pre-state cases, kissat); 4 KiB is beyond the time budget (case c0 is green after 33 min, case c2 does not finish in 60 min: every typed access at a symbolic offset costs O(block size)); pre-state case: E unused, follower absorbable", "requested names are therefore limited to what fits (name_len <= 255); IN.namelen itself ranges over 1..255", "the entry handed to the callback satisfies what ext2fs_process_dir_block checks before calling: 4-aligned offset < blocksize-8, rec_len >= 8, multiple of 4, offset+rec_len <= blocksize, name_len+8 <= rec_len, and it is not the checksum tail (the caller does not pass DIRENT_FLAG_INCLUDE_CSUM)", "ls->namelen == strlen(ls->name) <= 255, ls->err == 0, ls->sb == fs->super, callback blocksize == fs->blocksize (block directories; inline-data directories are not covered)", "libc strncpy is an over-approximating stub in the unit: the whole block becomes arbitrary except that, at every byte position the code or the specification later reads (headers of E, of the entry behind E, of the tail slot, the frame byte k, name byte j of both entries), bytes outside dst[0..n) are unchanged and dst[j] has the ISO C value; destination range asserted to be inside the block", "without the filetype feature the type byte of the new entry is only claimed to be 0 when the reused slot's stale type byte was 0 (always the case on a filesystem that never had the feature)", "superblock feature words other than metadata_csum / filetype bits arbitrary"],
  "backend": "kissat",
  "native": false
 }
@@ -201,7 +201,7 @@
  "unwind_reason": "link_proc is loop-free; only harness/stub loops are unwound: over the 255 possible name bytes (name_len is an 8-bit on-disk field); unwinding assertions on",
  "timeout": 1800,
  "functions": ["lib/ext2fs/link.c:link_proc", "lib/ext2fs/dir_iterate.c:ext2fs_get_rec_len", "lib/ext2fs/dir_iterate.c:ext2fs_set_rec_len"],
- "assumes": ["SYMBOLIC BLOCK OF 1024 BYTES (blocksize argument and fs->blocksize are 1024): link_proc and the rec_len helpers depend on the block size only through comparisons with it (and the < 65536 branch); units exist for 64 and 128 B (all pre-states in one run), 256 B and 1 KiB (the smallest legal ext2 block; four exhaustive pre-state cases, kissat); 4 KiB is beyond the time budget (every typed access at a symbolic offset costs O(block size)); pre-state case: E live, follower not absorbable", "requested names are therefore limited to what fits (name_len <= 255); IN.namelen itself ranges over 1..255", "the entry handed to the callback satisfies what ext2fs_process_dir_block checks before calling: 4-aligned offset < blocksize-8, rec_len >= 8, multiple of 4, offset+rec_len <= blocksize, name_len+8 <= rec_len, and it is not the checksum tail (the caller does not pass DIRENT_FLAG_INCLUDE_CSUM)", "ls->namelen == strlen(ls->name) <= 255, ls->err == 0, ls->sb == fs->super, callback blocksize == fs->blocksize (block directories; inline-data directories are not covered)", "libc strncpy is an over-approximating stub in the unit: the whole block becomes arbitrary except that, at every byte position the code or the specification later reads (headers of E, of the entry behind E, of the tail slot, the frame byte k, name byte j of both entries), bytes outside dst[0..n) are unchanged and dst[j] has the ISO C value; destination range asserted to be inside the block", "without the filetype feature the type byte of the new entry is only claimed to be 0 when the reused slot's stale type byte was 0 (always the case on a filesystem that never had the feature)", "superblock feature words other than metadata_csum / filetype bits arbitrary"],
+ "assumes": ["SYMBOLIC BLOCK OF 1024 BYTES (blocksize argument and fs->blocksize are 1024): link_proc and the rec_len helpers depend on the block size only through comparisons with it (and the < 65536 branch); units exist for 64 and 128 B (all pre-states in one run), 256 B and 1 KiB (the smallest legal ext2 block; four exhaustive pre-state cases, kissat); 4 KiB is beyond the time budget (case c0 is green after 33 min, case c2 does not finish in 60 min: every typed access at a symbolic offset costs O(block size)); pre-state case: E live, follower not absorbable", "requested names are therefore limited to what fits (name_len <= 255); IN.namelen itself ranges over 1..255", "the entry handed to the callback satisfies what ext2fs_process_dir_block checks before calling: 4-aligned offset < blocksize-8, rec_len >= 8, multiple of 4, offset+rec_len <= blocksize, name_len+8 <= rec_len, and it is not the checksum tail (the caller does not pass DIRENT_FLAG_INCLUDE_CSUM)", "ls->namelen == strlen(ls->name) <= 255, ls->err == 0, ls->sb == fs->super, callback blocksize == fs->blocksize (block directories; inline-data directories are not covered)", "libc strncpy is an over-approximating stub in the unit: the whole block becomes arbitrary except that, at every byte position the code or the specification later reads (headers of E, of the entry behind E, of the tail slot, the frame byte k, name byte j of both entries), bytes outside dst[0..n) are unchanged and dst[j] has the ISO C value; destination range asserted to be inside the block", "without the filetype feature the type byte of the new entry is only claimed to be 0 when the reused slot's stale type byte was 0 (always the case on a filesystem that never had the feature)", "superblock feature words other than metadata_csum / filetype bits arbitrary"],
  "backend": "kissat",
  "native": false
 }
@@ -221,87 +221,7 @@
  "unwind_reason": "link_proc is loop-free; only harness/stub loops are unwound: over the 255 possible name bytes (name_len is an 8-bit on-disk field); unwinding assertions on",
  "timeout": 1800,
  "functions": ["lib/ext2fs/link.c:link_proc", "lib/ext2fs/dir_iterate.c:ext2fs_get_rec_len", "lib/ext2fs/dir_iterate.c:ext2fs_set_rec_len"],
- "assumes": ["SYMBOLIC BLOCK OF 1024 BYTES (blocksize argument and fs->blocksize are 1024): link_proc and the rec_len helpers depend on the block size only through comparisons with it (and the < 65536 branch); units exist for 64 and 128 B (all pre-states in one run), 256 B and 1 KiB (the smallest legal ext2 block; four exhaustive pre-state cases, kissat); 4 KiB is beyond the time budget (every typed access at a symbolic offset costs O(block size)); pre-state case: E live, follower absorbable", "requested names are therefore limited to what fits (name_len <= 255); IN.namelen itself ranges over 1..255", "the entry handed to the callback satisfies what ext2fs_process_dir_block checks before calling: 4-aligned offset < blocksize-8, rec_len >= 8, multiple of 4, offset+rec_len <= blocksize, name_len+8 <= rec_len, and it is not the checksum tail (the caller does not pass DIRENT_FLAG_INCLUDE_CSUM)", "ls->namelen == strlen(ls->name) <= 255, ls->err == 0, ls->sb == fs->super, callback blocksize == fs->blocksize (block directories; inline-data directories are not covered)", "libc strncpy is an over-approximating stub in the unit: the whole block becomes arbitrary except that, at every byte position the code or the specification later reads (headers of E, of the entry behind E, of the tail slot, the frame byte k, name byte j of both entries), bytes outside dst[0..n) are unchanged and dst[j] has the ISO C value; destination range asserted to be inside the block", "without the filetype feature the type byte of the new entry is only claimed to be 0 when the reused slot's stale type byte was 0 (always the case on a filesystem that never had the feature)", "superblock feature words other than metadata_csum / filetype bits arbitrary"],
- "backend": "kissat",
- "native": false
-}
-*/
-/* VERIF-UNIT
-{
- "name": "link_proc_4k_c0",
- "props": ["C10"],
- "level": "U",
- "tier": "wip",
- "harness": "h_link_proc",
- "enforce": ["link_proc"],
- "defines": ["LP_BS=4096", "LP_CASE=0"],
- "sources": ["lib/ext2fs/dir_iterate.c"],
- "unwind": 6,
- "unwindset": {"h_link_proc.0": 257, "strncpy.0": 257},
- "unwind_reason": "link_proc is loop-free; only harness/stub loops are unwound: over the 255 possible name bytes (name_len is an 8-bit on-disk field); unwinding assertions on",
- "timeout": 7200,
- "functions": ["lib/ext2fs/link.c:link_proc", "lib/ext2fs/dir_iterate.c:ext2fs_get_rec_len", "lib/ext2fs/dir_iterate.c:ext2fs_set_rec_len"],
- "assumes": ["SYMBOLIC BLOCK OF 4096 BYTES (blocksize argument and fs->blocksize are 4096): link_proc and the rec_len helpers depend on the block size only through comparisons with it (and the < 65536 branch); units exist for 64 and 128 B (all pre-states in one run), 256 B and 1 KiB (the smallest legal ext2 block; four exhaustive pre-state cases, kissat); 4 KiB is beyond the time budget (every typed access at a symbolic offset costs O(block size)); pre-state case: E unused, follower not absorbable", "requested names are therefore limited to what fits (name_len <= 255); IN.namelen itself ranges over 1..255", "the entry handed to the callback satisfies what ext2fs_process_dir_block checks before calling: 4-aligned offset < blocksize-8, rec_len >= 8, multiple of 4, offset+rec_len <= blocksize, name_len+8 <= rec_len, and it is not the checksum tail (the caller does not pass DIRENT_FLAG_INCLUDE_CSUM)", "ls->namelen == strlen(ls->name) <= 255, ls->err == 0, ls->sb == fs->super, callback blocksize == fs->blocksize (block directories; inline-data directories are not covered)", "libc strncpy is an over-approximating stub in the unit: the whole block becomes arbitrary except that, at every byte position the code or the specification later reads (headers of E, of the entry behind E, of the tail slot, the frame byte k, name byte j of both entries), bytes outside dst[0..n) are unchanged and dst[j] has the ISO C value; destination range asserted to be inside the block", "without the filetype feature the type byte of the new entry is only claimed to be 0 when the reused slot's stale type byte was 0 (always the case on a filesystem that never had the feature)", "superblock feature words other than metadata_csum / filetype bits arbitrary"],
- "backend": "kissat",
- "native": false
-}
-*/
-/* VERIF-UNIT
-{
- "name": "link_proc_4k_c1",
- "props": ["C10"],
- "level": "U",
- "tier": "wip",
- "harness": "h_link_proc",
- "enforce": ["link_proc"],
- "defines": ["LP_BS=4096", "LP_CASE=1"],
- "sources": ["lib/ext2fs/dir_iterate.c"],
- "unwind": 6,
- "unwindset": {"h_link_proc.0": 257, "strncpy.0": 257},
- "unwind_reason": "link_proc is loop-free; only harness/stub loops are unwound: over the 255 possible name bytes (name_len is an 8-bit on-disk field); unwinding assertions on",
- "timeout": 7200,
- "functions": ["lib/ext2fs/link.c:link_proc", "lib/ext2fs/dir_iterate.c:ext2fs_get_rec_len", "lib/ext2fs/dir_iterate.c:ext2fs_set_rec_len"],
- "assumes": ["SYMBOLIC BLOCK OF 4096 BYTES (blocksize argument and fs->blocksize are 4096): link_proc and the rec_len helpers depend on the block size only through comparisons with it (and the < 65536 branch); units exist for 64 and 128 B (all pre-states in one run), 256 B and 1 KiB (the smallest legal ext2 block; four exhaustive pre-state cases, kissat); 4 KiB is beyond the time budget (every typed access at a symbolic offset costs O(block size)); pre-state case: E unused, follower absorbable", "requested names are therefore limited to what fits (name_len <= 255); IN.namelen itself ranges over 1..255", "the entry handed to the callback satisfies what ext2fs_process_dir_block checks before calling: 4-aligned offset < blocksize-8, rec_len >= 8, multiple of 4, offset+rec_len <= blocksize, name_len+8 <= rec_len, and it is not the checksum tail (the caller does not pass DIRENT_FLAG_INCLUDE_CSUM)", "ls->namelen == strlen(ls->name) <= 255, ls->err == 0, ls->sb == fs->super, callback blocksize == fs->blocksize (block directories; inline-data directories are not covered)", "libc strncpy is an over-approximating stub in the unit: the whole block becomes arbitrary except that, at every byte position the code or the specification later reads (headers of E, of the entry behind E, of the tail slot, the frame byte k, name byte j of both entries), bytes outside dst[0..n) are unchanged and dst[j] has the ISO C value; destination range asserted to be inside the block", "without the filetype feature the type byte of the new entry is only claimed to be 0 when the reused slot's stale type byte was 0 (always the case on a filesystem that never had the feature)", "superblock feature words other than metadata_csum / filetype bits arbitrary"],
- "backend": "kissat",
- "native": false
-}
-*/
-/* VERIF-UNIT
-{
- "name": "link_proc_4k_c2",
- "props": ["C10"],
- "level": "U",
- "tier": "wip",
- "harness": "h_link_proc",
- "enforce": ["link_proc"],
- "defines": ["LP_BS=4096", "LP_CASE=2"],
- "sources": ["lib/ext2fs/dir_iterate.c"],
- "unwind": 6,
- "unwindset": {"h_link_proc.0": 257, "strncpy.0": 257},
- "unwind_reason": "link_proc is loop-free; only harness/stub loops are unwound: over the 255 possible name bytes (name_len is an 8-bit on-disk field); unwinding assertions on",
- "timeout": 7200,
- "functions": ["lib/ext2fs/link.c:link_proc", "lib/ext2fs/dir_iterate.c:ext2fs_get_rec_len", "lib/ext2fs/dir_iterate.c:ext2fs_set_rec_len"],
- "assumes": ["SYMBOLIC BLOCK OF 4096 BYTES (blocksize argument and fs->blocksize are 4096): link_proc and the rec_len helpers depend on the block size only through comparisons with it (and the < 65536 branch); units exist for 64 and 128 B (all pre-states in one run), 256 B and 1 KiB (the smallest legal ext2 block; four exhaustive pre-state cases, kissat); 4 KiB is beyond the time budget (every typed access at a symbolic offset costs O(block size)); pre-state case: E live, follower not absorbable", "requested names are therefore limited to what fits (name_len <= 255); IN.namelen itself ranges over 1..255", "the entry handed to the callback satisfies what ext2fs_process_dir_block checks before calling: 4-aligned offset < blocksize-8, rec_len >= 8, multiple of 4, offset+rec_len <= blocksize, name_len+8 <= rec_len, and it is not the checksum tail (the caller does not pass DIRENT_FLAG_INCLUDE_CSUM)", "ls->namelen == strlen(ls->name) <= 255, ls->err == 0, ls->sb == fs->super, callback blocksize == fs->blocksize (block directories; inline-data directories are not covered)", "libc strncpy is an over-approximating stub in the unit: the whole block becomes arbitrary except that, at every byte position the code or the specification later reads (headers of E, of the entry behind E, of the tail slot, the frame byte k, name byte j of both entries), bytes outside dst[0..n) are unchanged and dst[j] has the ISO C value; destination range asserted to be inside the block", "without the filetype feature the type byte of the new entry is only claimed to be 0 when the reused slot's stale type byte was 0 (always the case on a filesystem that never had the feature)", "superblock feature words other than metadata_csum / filetype bits arbitrary"],
- "backend": "kissat",
- "native": false
-}
-*/
-/* VERIF-UNIT
-{
- "name": "link_proc_4k_c3",
- "props": ["C10"],
- "level": "U",
- "tier": "wip",
- "harness": "h_link_proc",
- "enforce": ["link_proc"],
- "defines": ["LP_BS=4096", "LP_CASE=3"],
- "sources": ["lib/ext2fs/dir_iterate.c"],
- "unwind": 6,
- "unwindset": {"h_link_proc.0": 257, "strncpy.0": 257},
- "unwind_reason": "link_proc is loop-free; only harness/stub loops are unwound: over the 255 possible name bytes (name_len is an 8-bit on-disk field); unwinding assertions on",
- "timeout": 7200,
- "functions": ["lib/ext2fs/link.c:link_proc", "lib/ext2fs/dir_iterate.c:ext2fs_get_rec_len", "lib/ext2fs/dir_iterate.c:ext2fs_set_rec_len"],
- "assumes": ["SYMBOLIC BLOCK OF 4096 BYTES (blocksize argument and fs->blocksize are 4096): link_proc and the rec_len helpers depend on the block size only through comparisons with it (and the < 65536 branch); units exist for 64 and 128 B (all pre-states in one run), 256 B and 1 KiB (the smallest legal ext2 block; four exhaustive pre-state cases, kissat); 4 KiB is beyond the time budget (every typed access at a symbolic offset costs O(block size)); pre-state case: E live, follower absorbable", "requested names are therefore limited to what fits (name_len <= 255); IN.namelen itself ranges over 1..255", "the entry handed to the callback satisfies what ext2fs_process_dir_block checks before calling: 4-aligned offset < blocksize-8, rec_len >= 8, multiple of 4, offset+rec_len <= blocksize, name_len+8 <= rec_len, and it is not the checksum tail (the caller does not pass DIRENT_FLAG_INCLUDE_CSUM)", "ls->namelen == strlen(ls->name) <= 255, ls->err == 0, ls->sb == fs->super, callback blocksize == fs->blocksize (block directories; inline-data directories are not covered)", "libc strncpy is an over-approximating stub in the unit: the whole block becomes arbitrary except that, at every byte position the code or the specification later reads (headers of E, of the entry behind E, of the tail slot, the frame byte k, name byte j of both entries), bytes outside dst[0..n) are unchanged and dst[j] has the ISO C value; destination range asserted to be inside the block", "without the filetype feature the type byte of the new entry is only claimed to be 0 when the reused slot's stale type byte was 0 (always the case on a filesystem that never had the feature)", "superblock feature words other than metadata_csum / filetype bits arbitrary"],
+ "assumes": ["SYMBOLIC BLOCK OF 1024 BYTES (blocksize argument and fs->blocksize are 1024): link_proc and the rec_len helpers depend on the block size only through comparisons with it (and the < 65536 branch); units exist for 64 and 128 B (all pre-states in one run), 256 B and 1 KiB (the smallest legal ext2 block; four exhaustive pre-state cases, kissat); 4 KiB is beyond the time budget (case c0 is green after 33 min, case c2 does not finish in 60 min: every typed access at a symbolic offset costs O(block size)); pre-state case: E live, follower absorbable", "requested names are therefore limited to what fits (name_len <= 255); IN.namelen itself ranges over 1..255", "the entry handed to the callback satisfies what ext2fs_process_dir_block checks before calling: 4-aligned offset < blocksize-8, rec_len >= 8, multiple of 4, offset+rec_len <= blocksize, name_len+8 <= rec_len, and it is not the checksum tail (the caller does not pass DIRENT_FLAG_INCLUDE_CSUM)", "ls->namelen == strlen(ls->name) <= 255, ls->err == 0, ls->sb == fs->super, callback blocksize == fs->blocksize (block directories; inline-data directories are not covered)", "libc strncpy is an over-approximating stub in the unit: the whole block becomes arbitrary except that, at every byte position the code or the specification later reads (headers of E, of the entry behind E, of the tail slot, the frame byte k, name byte j of both entries), bytes outside dst[0..n) are unchanged and dst[j] has the ISO C value; destination range asserted to be inside the block", "without the filetype feature the type byte of the new entry is only claimed to be 0 when the reused slot's stale type byte was 0 (always the case on a filesystem that never had the feature)", "superblock feature words other than metadata_csum / filetype bits arbitrary"],
  "backend": "kissat",
  "native": false
 }
